@@ -541,5 +541,6 @@ MANIFEST_ENTRY = {
     'level_note': ('O1: the address-dependent iteration order of set(groups) is made a schedule chosen by the explorer and all orders are compared with the '
                    'default run on micro-structures that have covalently coupled systems (N-terminal Asp, methotrexate ring nitrogens, KNI) and the -d display mode. '
                    'O2: process history chosen by fork (bounded enumeration of 1-2 earlier runs). O3: concrete path/stream/cwd comparison. Hash-seed '
-                   'randomisation of str keys, zip archives and multiple inputs per main() invocation are not decided here (no symbolic content).'),
+                   'randomisation of str keys, zip archives and multiple inputs per main() invocation are not decided here (no symbolic content).'
+                   ' O2[fresh-interpreter], O5 (several inputs per invocation) and O3 (decoy data files in the working directory) are concrete table checks driven through the explorer.'),
 }
